@@ -469,7 +469,7 @@ def jobs(tier, seed):
                                              'cases': cs[i:i + 5]}))
   for n in (1, 2, 3):
     js.append(Job(f'metric:{n}', job_metric, {
-        'sizes': [n], 'timeout': 120 if tier == 'quick' else 600}))
+        'sizes': [n], 'timeout': 300 if tier == 'quick' else 900}))
   return js
 
 
